@@ -89,7 +89,7 @@ PROPS = {
         "level_text": "At every quiescent point of every explored schedule the set of tasks simultaneously inside Runner.Run must equal "
                       "the model's eligible set; since nothing is released before that holds, a scheduler that serialises "
                       "independent stages can never get there and hits the liveness bound. Part rendezvous does the same at system "
-                      "level (real runner, binary): stages of one layer each wait for all others of the layer to be running.",
+                      "level (real runner, binary): stages of one layer each wait for all others of the layer to be running. In part rendezvous the waiting loop sits in the task's command, in its condition or in its before hook (drawn).",
         "level_note": "Bounded liveness (4 s, retried once with 20 s); trusts the reference model's eligibility rule.",
         "rule": ENGINE_RULE + "rendezvous: rapid layered pipelines (1..3 layers x 2..4 stages; task names that collide once "
                 "normalised, one task in several concurrent stages, shared exportAs, allowed failures) run by the real runner through "
@@ -103,7 +103,7 @@ PROPS = {
                      "differential against Kahn's algorithm; same graphs through the CLI",
         "level_text": "Complete for every edge set on up to 4 stages in every declaration order (in-process API); sampled "
                       "beyond (n<=10) and at the binary level. An iff in both directions plus exact edge sets, so neither "
-                      "a missed cycle nor a false cycle nor a lost/invented edge passes on the explored graphs.",
+                      "a missed cycle nor a false cycle nor a lost/invented edge passes on the explored graphs. Part large: 11..20 stages up to complete forward density, declared dependencies-first, dependants-first or shuffled, with or without one back edge.",
         "level_note": "Trusts the harness's 20-line Kahn cycle detector and the DOT output parser (node labels/edges) for the CLI part.",
         "rule": "exhaustive: every edge set (self-loops included) on n<=4 stages x every declaration order, "
                 "sharded by edge-set index; random: rapid digraphs n<=10 with per-case density/back-edge mode and random "
@@ -130,7 +130,7 @@ PROPS = {
                       "before/after absent|ok|failing x condition absent|true|false = 3024 tasks) in-process; random larger tasks "
                       "(6 commands, 4 exit shapes, statuses 1..255, sleeps) in-process, as a stage and through the binary. The trace "
                       "must equal the model trace token for token, so order, overlap (S immediately followed by its E), early stop "
-                      "and hook placement are all decided.",
+                      "and hook placement are all decided. A third of the random cases are run twice on one runner (same or new task object, drawn): every exit status, the condition's included, is read from a file when the command runs, and the second run has other statuses behind identical texts; it is judged by the model like the first.",
         "level_note": "When an `after` hook fails the remaining `after` hooks may or may not run (statement is silent); a task without "
                       "variations counts as one empty variation.",
         "rule": "grammar: full enumeration (status of failing commands from a PRNG seeded by VERIF_SEED); statuses: every status 0..255 at "
@@ -150,7 +150,7 @@ PROPS = {
         "level_text": "Every exit status 0..255 at every command position of 1..3-command tasks, with and without allow_failure, run "
                       "directly and as a pipeline stage, is compared with the model (error-nil-ness, Errored, Error, ExitCode, Skipped); "
                       "CLI: 1..4 targets (tasks and pipelines) with drawn statuses in drawn order: exit 0 iff all succeed, executed in "
-                      "command-line order, nothing after the first failing target.",
+                      "command-line order, nothing after the first failing target. A third of the random cases are run twice on one runner with statuses read at run time (same texts, other outcome); for a re-used task object only what the second run returns, executes and has reason to set is judged.",
         "level_note": "Errored/ExitCode after a failing before-hook are not asserted (the statement speaks of commands); the non-zero value "
                       "of the process exit status is not asserted.",
         "rule": "statuses: full sweep; grammar: as C06; targets: rapid argv of 1..4 targets. Non-trivial for C07 = status > 1, or failing "
@@ -172,7 +172,7 @@ PROPS = {
                       "stage's overrides - no key private to another stage, no other stage's value - and the task's own settings "
                       "must be unchanged afterwards; repeated runs; in-process (recording Runner owns nothing but observes the "
                       "task object) and through the binary (values echoed by the commands, pwd -P); part real runs the shared-task "
-                      "API arrangement on the real runner with the task dir written as a template over a variable that stages override. The keys that tasks and stages set include names the runner maintains itself (ARGS, TASK_NAME, variable Args); every real execution prints them and the expectation carries the runner's defaults.",
+                      "API arrangement on the real runner with the task dir written as a template over a variable that stages override. The keys that tasks and stages set include names the runner maintains itself (ARGS, TASK_NAME, variable Args); every real execution prints them and the expectation carries the runner's defaults. In the cli part some of the names are already defined in the environment taskctl is started with.",
         "level_note": "Overlap of concurrent stages at the binary level is provoked by sleep durations, not enumerated.",
         "rule": "api: rapid cases (task env/vars over 4+3 keys each present with p=1/3, stages with own subsets, arrangement drawn, "
                 "second pipeline, direct run, 1..2 repetitions); cli: the same plus stage/task dir. Non-trivial = >= 2 stages share the "
@@ -193,7 +193,7 @@ PROPS = {
                       "and stages; the printed value must be the highest level's. Untouched parent variables and TASK_NAME are checked "
                       "on every run, hooks on a quarter; stage cases run `taskctl pp tk`, so the direct run behind the pipeline is "
                       "checked in the same invocation. Dirs: every subset of {stage, task, context} dir x start directory x run mode "
-                      "x admissible task-dir forms, pwd -P in commands, before and after. A drawn subset of the levels defines the name with the empty value (a value like any other).",
+                      "x admissible task-dir forms, pwd -P in commands, before and after. A drawn subset of the levels defines the name with the empty value (a value like any other). The parent environment also holds names that nothing overrides but that resemble overridden ones (other case, prefix, suffix, case variants of TASK_NAME and ARGS); they must pass through on every line printed.",
         "level_note": "{{.Root}} in a task dir is used only when taskctl starts in the project root (from a sub-directory the code and the "
                       "README disagree about Root and the property does not settle it).",
         "rule": "env: rapid draws (permutation of six value ranks, run mode, hooks), then all subsets; dirs: full enumeration. Non-trivial = "
@@ -214,7 +214,7 @@ PROPS = {
                       "private alphabets when several tasks share the sink), prefixed must emit whole single-task lines whose "
                       "normal form equals the input's; every chunk is handed over as a copy that must come back unmodified and the "
                       "task's recorded output must equal the input. formats: every outcome x format (matrix, exhaustive) and rapid 1..3-task "
-                      "processes with durations around the cockpit's 100 ms frame: no crash, no hang, identical recorded results.",
+                      "processes with durations around the cockpit's 100 ms frame: no crash, no hang, identical recorded results. Task names include formatting verbs, template braces, blanks and non-ASCII letters.",
         "level_note": "Chunk boundaries inside an escape sequence are excluded from the main search by construction (known finding "
                       "ansi-split, probed separately); a hang is 12 s against ~0.3 s normal and is cross-checked by a calibration child.",
         "rule": "streams: rapid (format, 1..8 streams, line kinds incl. 4000..4200 and up to 10000 bytes, cut kinds incl. between CR and LF). "
@@ -239,7 +239,7 @@ PROPS = {
                       "TempDir, Args, ArgsList and $ARGS (with and without `--`). Argument vectors of up to 5 words (target-like, "
                       "k=v, -x, --set, --, -c ...) after `--` must arrive verbatim and in order and never run as targets (marker "
                       "tasks named like every word). An undefined reference at every command position (and in dir) of 1..4-command "
-                      "tasks: commands before it ran, it and later ones did not, exit status non-zero. In two thirds of the cases a second variable y is defined at its own drawn subset of the four levels, so command lines carry two --set flags in either order.",
+                      "tasks: commands before it ran, it and later ones did not, exit status non-zero. In two thirds of the cases a second variable y is defined at its own drawn subset of the four levels, so command lines carry two --set flags in either order. The argument alphabet includes words with blanks or tabs and the empty word (.ArgsList must keep the word boundaries).",
         "level_note": "Words are shell-safe (the harness passes argv directly, no shell involved).",
         "rule": "vars: rapid (mode, dash, <=3 words, value permutation) then all subsets; args: rapid; undefined: full enumeration. "
                 "Non-trivial = >= 2 levels present (vars); >= 2 words of which one is target-like / starts with '-' / has '=' (args); "
@@ -262,7 +262,7 @@ PROPS = {
                       "retry; ~10 ms normally); recorded pids must disappear; no marker may appear after the cancel completed; "
                       "interrupted and later runs must report errors; waiting stages must not be done. Commands may ignore SIGINT "
                       "(2 s kill grace); at the return of every single Cancel call - also of an overlapping second one - the interrupted "
-                      "commands must be gone. Tasks may run in an execution context with before/after commands of its own; the marker log is snapshotted at the return of every Cancel call and nothing may be added to it afterwards.",
+                      "commands must be gone. Tasks may run in an execution context with before/after commands of its own; the marker log is snapshotted at the return of every Cancel call and nothing may be added to it afterwards. The tasks may allow failure and may carry a generous timeout of their own (an interruption is still not a success); stages interrupted inside a command must not be reported done.",
         "level_note": "'At any moment' is sampled at marker granularity (plus drawn delays of 0..20 ms), not at instruction granularity.",
         "rule": "matrix: in-flight 0..4 x waiting {0,2} x 6 injection points x once/twice-seq/twice-conc x runner/scheduler + condition "
                 "errors (quick: double cancels only for <= 2 in flight; thorough: all); cancel: rapid over the same space with drawn "
@@ -282,7 +282,7 @@ PROPS = {
                       "concatenation byte for byte and every transitive dependant in a generated DAG (declared dependants-first) must "
                       "read exactly that text from <NAME>_OUTPUT, the name being computed by the oracle from the statement's rule "
                       "(or exportAs). A chain task checks .Output command by command. The output format is drawn (raw / prefixed, "
-                      "through the binary also cockpit) and payloads may be coloured: what is captured must not depend on how it is shown.",
+                      "through the binary also cockpit) and payloads may be coloured: what is captured must not depend on how it is shown. Producer and consumers may run in a named context; in a third of the cases a second producer writes other text to the same variable (same exportAs, or a name that maps to the same <NAME>_OUTPUT) after the first pipeline, and its own dependant must read that.",
         "level_note": "Only stages that transitively depend on the producer are checked; consumers read with printenv, which appends one "
                       "newline; CLI task names avoid '{' '}' (loaded names are rendered as templates) and a leading '-'.",
         "rule": "rapid cases; non-trivial = name with a non-identifier byte, or output >= 4 KiB or multi-line, or >= 2 jobs; distinct = "
@@ -302,7 +302,7 @@ PROPS = {
                       "commands must succeed (every command gets the full timeout). Run must return within the sum of the commands' "
                       "deadlines (+2.5 s kill grace for the SIGINT-ignoring child) + 1.5 s slack, report failure also with "
                       "allow_failure, start no later command, and leave no process behind; an over-running `after` is cut short and "
-                      "does not change the result. Hook lists have up to three commands, including several 0.6-timeout commands in one hook list (each hook command gets the full timeout as well).",
+                      "does not change the result. Hook lists have up to three commands, including several 0.6-timeout commands in one hook list (each hook command gets the full timeout as well). A third of the random cases and some matrix rows run the task as the only stage of a pipeline; the task's timeout setting must be unchanged afterwards.",
         "level_note": "Time bounds are generous (a 2x slower termination passes); a breach is re-tried once with 5x slack before it is reported.",
         "rule": "matrix: 52 cases (exhaustive over the listed grid at timeout 300/500 ms); random: rapid (timeout 200..1000 ms, 1..4 commands, "
                 "hooks). Non-trivial = an over-runner at position >= 1, or in a hook, or with allow_failure, or >= 2 commands of 0.6 x timeout; "
@@ -322,7 +322,7 @@ PROPS = {
                       "appends a token to one trace file. Per context: exactly one `up` before every other token; failing `up` => no "
                       "task command and every Run errors; #before = #after = executions, and in every prefix #before >= #started tasks "
                       "and #after <= #ended tasks; sequential runs strictly before, task, after; exactly one `down` after everything, "
-                      "none for unused contexts, also when a CLI target failed. In the cli part a target is a task run directly or a pipeline of 1..3 consecutive tasks chained by depends_on, mixed on one command line.",
+                      "none for unused contexts, also when a CLI target failed. In the cli part a target is a task run directly or a pipeline of 1..3 consecutive tasks chained by depends_on, mixed on one command line. Any of a context's four hook lists may be absent (drawn); `down` is due whenever the context was used, whether or not it has `up` commands.",
         "level_note": "A task skipped by its own condition may or may not count as an execution for before/after; `down` after a failed "
                       "`up` may or may not run (statement silent).",
         "rule": "rapid cases; non-trivial = >= 2 tasks share a context in a concurrent mode, or a task has a hook/condition, or `up` fails; "
@@ -342,7 +342,7 @@ PROPS = {
                       "mutations (wrong type incl. null, delete, unknown key, duplicate), are emitted as YAML/JSON/TOML, optionally get "
                       "YAML anchors / merge keys / odd keys and a byte-level mutation (truncate, splice invalid UTF-8/NUL/BOM, replace "
                       "a byte by a syntax character); then list, validate, show <each task>, graph <each pipeline> must end within "
-                      "10 s (40 s on the retry) with exit status 0 or 1 and no panic / fatal error / goroutine dump. Stages draw depends_on from the stages declared before them, so accepted pipelines have edges (and `graph` draws them), besides the hostile forms.",
+                      "10 s (40 s on the retry) with exit status 0 or 1 and no panic / fatal error / goroutine dump. Stages draw depends_on from the stages declared before them, so accepted pipelines have edges (and `graph` draws them), besides the hostile forms. Contexts get odd `executable` shapes (scalars, lists, maps without bin), and the scalar alphabets hold blank-only strings.",
         "level_note": "URL imports are not exercised (no network). Native fuzzing (thorough) cannot be pinned to VERIF_SEED; its "
                       "reproducible unit is the saved input, replayed at binary level.",
         "rule": "rapid cases; non-trivial = the document carries at least one mutation; distinct = canonical JSON of all files. Classes: "
@@ -363,7 +363,7 @@ PROPS = {
                       "unknown stage, depends_on->stage of another pipeline, depends_on->name of a task or pipeline, self-dependency, watcher->unknown task, duplicate stage "
                       "name, pipeline inclusion cycle of length 1..3} at a drawn position: `list` must exit non-zero with a message and "
                       "`validate` must not say 'file is valid', without crashing. Unbroken configurations must be accepted and every "
-                      "pipeline must run to exit 0 within 10 s (40 s on the retry) without a fatal log line. Break kind dupstage writes a stage twice (task or pipeline stage alike); pipelines may be included by several stages of the including pipeline.",
+                      "pipeline must run to exit 0 within 10 s (40 s on the retry) without a fatal log line. Break kind dupstage writes a stage twice (task or pipeline stage alike); pipelines may be included by several stages of the including pipeline. Break kind dep-blank: an empty or blank depends_on entry.",
         "level_note": "Commands of the generated tasks are `true`; what the pipelines do is not the subject here.",
         "rule": "rapid cases; every case is non-trivial; distinct = (break kind, position class, canonical JSON). Classes: break kind x "
                 "position class, format.",
@@ -423,7 +423,7 @@ PROPS = {
                       "excluded and unrelated files; every subscribed operation on an observed path must append a line with that "
                       "EventName and EventPath within 4 s (also the 2nd..6th), no line may carry an unsubscribed event or an "
                       "unobserved path. pairs: every operation kind on every observed file A followed by a write on every other "
-                      "observed file B (names that are textual prefixes of one another included). The observed files include a dot-file and the content of a dot-directory.",
+                      "observed file B (names that are textual prefixes of one another included). The observed files include a dot-file and the content of a dot-directory. The select part's file may define further watchers (not run) with the same include patterns and other excludes.",
         "level_note": "Depends on the kernel's inotify delivery: extra lines of a subscribed type (a remove is preceded by an attribute "
                       "change) are accepted; a path selected only through 'X/**' matching X itself is accepted either way; a late event "
                       "is re-tried once with 12 s bounds.",
